@@ -10,6 +10,34 @@ line on stdout, statistics on stderr.
   c13  {"hex","delims","masked","hidden"}       byte offsets; see DESIGN 6/C13
   c14  {"hex","orig_hex","error","at","token","what"}   one mandatory delimiter deleted
 
+Side conditions of the grammar that the generator enforces (each was needed to get a clean run on the
+implementation; they are properties of the lexer's disambiguation heuristics, not defects):
+  * ostmt: a `*`/`**` symbol may only appear after an otok that is not a macro call (a call does not set the
+    lexer's "statement pending" flag, so `%m(1) * 2;` contains the star comment `* 2;`).
+  * quoted literals: a letter directly after the closing quote is read as a literal suffix (b d dt n t x; `x`
+    demands hex content) and a second literal with the same quote fuses (`''` / `""` escape): a separator
+    is inserted (also in macro expressions: `'a' ne 1`, not `'a'ne 1`).
+  * numbers / names / `&` / `%` / `/`+`*` must not fuse with their neighbours (`1.` + `eq` is an exponent
+    without digits, `50%` + `abc` is a macro call, ...).
+  * a paren-less user call must not be followed by h '(' (that would be its argument list); in particular the
+    function-name expression of %sysfunc must not end with a paren-less call.
+  * nameexpr: no blanks; a `.` after a macro variable reference is only part of the name while a resolve
+    operation is pending (`&a..b` ends the name at the second dot); quoting functions (%str, %bquote, ...) are
+    not calls inside a name expression.
+  * positional argument of a user call / named-argument built-in: the leading "name phase" (name characters,
+    macro variable references, paren-less calls, optionally one final call with arguments or built-in, then h)
+    must not be followed by '='.  Once value mode is entered a top-level '=' is plain text (recorded as masked).
+  * evalexpr: words are non-mnemonic names; a mnemonic operator is preceded by a blank/comment (or `)`), and
+    followed by a non-name character; `&` as an operator is followed by a blank.  Only the blank run directly
+    before an operator/terminator is hidden: blanks *before a comment* are glued to the operand's MacroString
+    and an integer followed by a comment is not an IntegerLiteral (`%eval(1 /*c*/+2)`): such integers / blanks
+    are generated but not listed in delims / hidden.  After `)` everything is hidden.
+  * a "..." inside %nrstr(...) is still a string expression with active & and % triggers; the generator only
+    puts trigger-free text there.
+  * %macro parameter list: h before ',' or ')' is hidden after a bare parameter name; after a default value
+    blanks belong to the value.
+  * star comments inside a %macro body contain no `%name`; macro comments have balanced quotes.
+
 All offsets are kept as *character* offsets while a program is assembled (class Frag) and are
 converted to UTF-8 byte offsets when the record is printed.
 
@@ -407,32 +435,31 @@ class Gen:
         The caller has emitted the leading h: the value does not start with whitespace/comment."""
         n = self.wch([(1, 0), (6, 1), (4, 2), (2, 3), (1, 4)])
         start = F.n
+        # A positional argument of a MacroCall context is first read as a possible argument NAME: name characters
+        # and macro variables, optionally one trailing call, then h; a '=' seen there makes it a named argument.
+        # Anything else (or a non-'=' after the h) switches (rolls back) to value mode, where '=' is plain text.
+        # eq_ok: value mode has certainly been entered;  gap: blanks/comment/call seen while still in the name phase
         eq_ok = kind == "free"
+        gap = False
         for i in range(n):
             k = self.wch([(8, "word"), (2.5, "group"), (1.5, "sq"), (1.5, "dq"), (2.5, "mvar"), (3 if self.can_nest(lvl) else 0, "call"), (0.7 if i else 0, "ws"), (0.5 if i else 0, "cmt")])
+            p0 = len(F.p)
             if k == "word":
-                w = self.ch(self.ARG_EQ_WORDS) if (eq_ok and self.p(0.15)) else self.ch(self.ARG_WORDS)
-                if i == 0 and kind == "pos" and (w[0].isdigit() or w[0] in "-.+#@$~<>"):
-                    eq_ok = True     # the first character forces value mode: a later top-level '=' is plain text
+                w = self.ch(self.ARG_EQ_WORDS) if (eq_ok and self.p(0.2)) else self.ch(self.ARG_WORDS)
                 if i:
                     if self.p(0.4):
                         self.ws(F)
                     self.sep_if_needed(F, w)
-                F.t(w)
+                # a top-level '=' inside a value is plain text as well: recorded as masked (extension of DESIGN's list)
+                F.m(w) if "=" in w else F.t(w)
             elif k == "group":
                 if i and self.p(0.3):
                     self.ws(F)
-                if i == 0 and kind == "pos":
-                    eq_ok = True
                 self.group(F, lvl)
             elif k == "sq":
-                if i == 0 and kind == "pos":
-                    eq_ok = True
                 self.sep_if_needed(F, "'")
                 self.sq(F)
             elif k == "dq":
-                if i == 0 and kind == "pos":
-                    eq_ok = True
                 self.sep_if_needed(F, '"')
                 self.dq(F, lvl, call_ok=self.can_nest(lvl))
             elif k == "mvar":
@@ -445,6 +472,26 @@ class Gen:
                 self.ws(F)
             else:
                 F.t(self.cstyle_text(), keep=True)
+            if not eq_ok:
+                seg = "".join(F.p[p0:])
+                if i and (seg[:1].isspace() or seg.startswith("/*")):
+                    gap = True
+                if k in ("group", "sq", "dq"):
+                    eq_ok = True
+                elif k in ("ws", "cmt"):
+                    gap = True
+                elif k == "call":
+                    # a call with arguments / a built-in ends the name phase (the '=' check follows its ')');
+                    # a paren-less user call rolls back and the name phase simply continues
+                    if gap:
+                        eq_ok = True
+                    elif not F.noparen:
+                        gap = True
+                elif k == "mvar":
+                    if gap:
+                        eq_ok = True
+                elif gap or not all(is_namechar(c) for c in seg) or (i == 0 and seg[0].isdigit()):
+                    eq_ok = True
         if F.n > start and self.p(0.12):
             self.ws(F)
         if F.last in "&%" and F.n > start:
@@ -1167,6 +1214,8 @@ def mutations(F):
                 gap = re.sub(r"/\*.*?\*/", "", m[extra:at], flags=re.S)
                 if not any(c.isspace() for c in gap) and (is_namechar(nxt) or nxt in "&%."):
                     continue
+                if nxt == "(" and re.search(r"%\w+$", m[:extra]):
+                    continue  # `%let %m =(x);` -> `%m (x)` : the '(' becomes the argument list of the paren-less call
         out.append((m, err, at, tok, what))
     for off, what in F.closes:
         assert s[off] == ")", (s, off)
